@@ -108,14 +108,14 @@ def run(ctx):
     quick = ctx.tier == "quick"
     samples = []
     # ---- design
-    d_fixed = ctx.tlc_design("periph/DhtGen", "cfg/Dht.fixed.cfg", timeout=900, tag="design-repaired")
+    d_fixed = ctx.tlc_design("periph/DhtGen", "cfg/Dht.fixed.cfg", workers=4, timeout=900, tag="design-repaired")
     d_impl = ctx.tlc("periph/DhtGen", "cfg/Dht.impl.cfg", workers=1, timeout=900, tag="design-as-implemented")
     if d_impl.error:
         raise Infra("TLC error on the as-implemented design variant: %s\n%s" % (d_impl.error, d_impl.out[-2000:]))
     # ---- R: behaviours of the as-implemented variant
     runs = [("small", ctx.tlc_design("periph/DhtGen", "cfg/DhtGen.%s.cfg" % ("quick" if quick else "thorough"),
                                      workers=1, timeout=2400, heap="8g", tag="small"), 2, DIST_S)]
-    for tag, cfg, num, depth in (("full", "cfg/DhtGen.sim.cfg", 4 if quick else 60, 70),
+    for tag, cfg, num, depth in (("full", "cfg/DhtGen.sim.cfg", 3 if quick else 60, 70),
                                  ("full-overflow", "cfg/DhtGen.simr.cfg", 1 if quick else 8, 150)):
         r = ctx.tlc("periph/DhtGen", cfg, simulate=num, depth=depth, workers=2, timeout=1500, tag=tag)
         if r.violated or r.error:
@@ -212,7 +212,7 @@ def run(ctx):
         rule="R: every transition of Dht.tla (as-implemented variant) over 4+2 nodes in 2 buckets of capacity 2 (real buckets "
              "pre-filled to 14), <=%d operations, with its path; seeded random behaviours of 70/150 operations over 36+4 nodes at "
              "the real capacity 16 (all successors of the last state); T: every distinct real table state judged by TLC"
-             % (6 if quick else 9),
+             % (5 if quick else 9),
     ), assumptions=[
         "nodes are given chosen distance hashes through the export shim (one hash per identity); the network layer is not run",
         "the table is driven sequentially (the real table is only touched from the Network.loop goroutine)",
